@@ -7,6 +7,7 @@
 #include "regex/StringMatcher.h"   // C15 block below
 #include "regex/QueryFilter.h"   // C14
 #include "util/TimeUtilityFunctions.h"
+#include "util/Hashtable.h"
 using namespace muscle;
 
 #define K(name, val) printf("def %s : Nat := %llu\n", name, (unsigned long long)(val))
@@ -91,6 +92,7 @@ static void tunnelConstants()
    printf("/- tunable (model parameter) -/\n");
    K("tunnelMaxReceiveStates",   cap);
 }
+static unsigned long long n64(uint32 wrapped, uint32 n, uint32 slot) {const unsigned long long want = (unsigned long long)n*slot + sizeof(HashtableBase<uint32,uint32>); return ((want & 0xFFFFFFFFULL) == wrapped) ? want : (unsigned long long)wrapped;}
 
 int main()
 {
@@ -208,6 +210,35 @@ int main()
       printf("]\n");
    }
    // ---- END C15 block
+
+   // ---- C09: Hashtable index-width kernel, measured on the compiled code through the public API:
+   // GetTotalDataSize() = sizeof(table) + slots * sizeof(HashtableEntry<IndexType>), and the entry type is
+   // chosen by ComputeTableIndexTypeForTableSize(tableSize).  EnsureSize(n) on an empty table allocates nothing.
+   {
+      printf("\n/- Hashtable (util/Hashtable.h): capacity -> slot-index width, measured from the compiled headers -/\n");
+      K("htDefaultCapacity", (uint32)MUSCLE_HASHTABLE_DEFAULT_CAPACITY);
+      uint32 prevSlot = 0; uint32 thr[8]; uint32 slotSz[8]; int nthr = 0;
+      for (uint32 n=1; n<=70000; n++)
+      {
+         Hashtable<uint32,uint32> t; (void) t.EnsureSize(n, true);
+         if (t.GetNumAllocatedItemSlots() != n) continue;   // capacities below the default are not reachable this way
+         const uint32 slot = (t.GetTotalDataSize()-(uint32)sizeof(HashtableBase<uint32,uint32>))/n;
+         if ((slot != prevSlot)&&(nthr < 8)) {thr[nthr] = n; slotSz[nthr] = slot; nthr++; prevSlot = slot;}
+      }
+      const uint32 big[] = {1u<<20, 1u<<24, 0x7FFFFFFFu};
+      for (size_t i=0; i<3; i++) {Hashtable<uint32,uint32> t; (void) t.EnsureSize(big[i]); const uint32 slot = (uint32)((n64(t.GetTotalDataSize(), big[i], slotSz[nthr-1])-sizeof(HashtableBase<uint32,uint32>))/big[i]); if ((slot != prevSlot)&&(nthr < 8)) {thr[nthr] = big[i]; slotSz[nthr] = slot; nthr++; prevSlot = slot;}}
+      // hash + key + value = 12 bytes, then six indices of the chosen width (rounded up to the alignment)
+      K("htIndexWidths", (uint32)nthr);
+      K("htIndexThreshold16", (nthr > 1) ? thr[1] : 0);
+      K("htIndexThreshold32", (nthr > 2) ? thr[2] : 0);
+      K("htIndexBytes0", (nthr > 0) ? (slotSz[0]-12)/6 : 0);
+      K("htIndexBytes1", (nthr > 1) ? (slotSz[1]-12)/6 : 0);
+      K("htIndexBytes2", (nthr > 2) ? (slotSz[2]-12)/6 : 0);
+      printf("\n/-- `HashtableBase::ComputeTableIndexTypeForTableSize` (TABLE_INDEX_TYPE_UINT8/16/32 = 0/1/2) -/\n");
+      printf("def htIndexType (tableSize : Nat) : Nat :=\n  (if tableSize >= htIndexThreshold16 then 1 else 0) + (if tableSize >= htIndexThreshold32 then 1 else 0)\n");
+      printf("\n/-- bytes of one slot index for a TABLE_INDEX_TYPE_* value -/\n");
+      printf("def htIndexBytes (ty : Nat) : Nat := if ty = 0 then htIndexBytes0 else if ty = 1 then htIndexBytes1 else htIndexBytes2\n");
+   }
    printf("\nend Muscle.Gen\n");
    return 0;
 }
